@@ -52,6 +52,37 @@ theorem gen_customStackT_eq (us : CStack α k n m) (H A : CGrid α n m) :
   simp only at h
   simp only [h]
 
+/-! ### `crop_center (zero_pad u) = u` at the level of grids (through the regenerated index expressions) -/
+section padcrop
+open Index
+
+theorem torchCrop_src0 (h w i : ℕ) : (torchCrop false 0 (2 * h) (2 * w) 0 0).src i = some (i + (h - h / 2)) := by
+  simp only [torchCrop, loadAxis, pySliceBounds, torchCropDef_lo0, torchCropDef_hi0, Option.some.injEq]
+  split_ifs <;> omega
+theorem torchCrop_src1 (h w i : ℕ) : (torchCrop false 1 (2 * h) (2 * w) 0 0).src i = some (i + (w - w / 2)) := by
+  simp only [torchCrop, loadAxis, pySliceBounds, torchCropDef_lo1, torchCropDef_hi1, Option.some.injEq]
+  split_ifs <;> omega
+theorem torchPad_src0 (h w i : ℕ) (hi : i < h) : (torchPad false 0 h w 0 0).2.src (i + (h - h / 2)) = some i := by
+  have hc : torchPadDef_lo0 h w 0 0 ≤ ((i + (h - h / 2) : ℕ) : ℤ) ∧ ((i + (h - h / 2) : ℕ) : ℤ) < torchPadDef_hi0 h w 0 0 := by
+    simp only [torchPadDef_lo0, torchPadDef_hi0]; omega
+  simp only [torchPad, storeAxis]
+  rw [if_pos hc]
+  simp only [torchPadDef_lo0, Option.some.injEq]; omega
+theorem torchPad_src1 (h w i : ℕ) (hi : i < w) : (torchPad false 1 h w 0 0).2.src (i + (w - w / 2)) = some i := by
+  have hc : torchPadDef_lo1 h w 0 0 ≤ ((i + (w - w / 2) : ℕ) : ℤ) ∧ ((i + (w - w / 2) : ℕ) : ℤ) < torchPadDef_hi1 h w 0 0 := by
+    simp only [torchPadDef_lo1, torchPadDef_hi1]; omega
+  simp only [torchPad, storeAxis]
+  rw [if_pos hc]
+  simp only [torchPadDef_lo1, Option.some.injEq]; omega
+
+theorem cropGrid_padGrid {α : Type} [Num α] {h w : Nat} (u : CGrid α h w) : cropGrid (padGrid u) = u := by
+  apply Grid.ext_get; intro i j
+  have a1 : i.val + (h - h / 2) < 2 * h := by omega
+  have b1 : j.val + (w - w / 2) < 2 * w := by omega
+  simp only [cropGrid, padGrid, Grid.get_ofFn, torchCrop_src0, torchCrop_src1, dif_pos a1, dif_pos b1,
+    torchPad_src0 h w i.val i.isLt, torchPad_src1 h w j.val j.isLt, i.isLt, j.isLt, dite_true, Fin.eta]
+end padcrop
+
 end generic
 
 /-! ## at `α = ℝ` -/
